@@ -68,9 +68,16 @@ def corpus():
     return out
 
 
-def calc(activation, formula, atoms, mass, fl, cd, fr, t, rests):
+def calc(activation, formula, atoms, mass, fl, cd, fr, t, rests, reuse=False):
     from .. import pyside
     s = activation.Sample(formula(pyside.struct_objs(atoms)), mass)
+    if reuse:   # the Sample was used for another calculation (and a decay_time) before
+        s.calculate_activation(activation.ActivationEnvironment(fluence=fl * 10, Cd_ratio=3.0, fast_ratio=2.0),
+                               exposure=t * 2, rest_times=[7.0, 0.5])
+        try:
+            s.decay_time(1e-3)
+        except Exception:  # noqa
+            pass
     env = activation.ActivationEnvironment(fluence=fl, Cd_ratio=cd, fast_ratio=fr)
     s.calculate_activation(env, exposure=t, rest_times=list(rests))
     return s
@@ -111,7 +118,7 @@ def check_cases(run: Run, R, cases, activation):
             s0 = calc(activation, formula, atoms, mass, fl, cd, fr, t, [0.0])
             a0 = [(R.index_of[id(k)], v[0]) for k, v in s0.activity.items()]
             s1 = calc(activation, formula, atoms, mass, fl, cd, fr, t, rests)
-            s2 = calc(activation, formula, atoms, mass, fl, cd, fr, t, rests2)
+            s2 = calc(activation, formula, atoms, mass, fl, cd, fr, t, rests2, reuse=True)
         except Exception as e:  # noqa   (C14's business; recorded there too)
             run.count(key=repr(case), nontrivial=False, tag="stream:activation-failed")
             continue
@@ -129,11 +136,11 @@ def check_cases(run: Run, R, cases, activation):
         reqs.append(AC.calc_line(mass, fl, cd, fr, t, rests, parts_of(s1, activation)))
         reqs.append("removal")
         reqs.append("decay %s" % f2h(target))
-        infos.append((case, inp, a0, total0, target, r1, r2))
+        infos.append((case, inp, a0, total0, target, r1, r2, feed))
     reps = run_driver("activation", reqs) if reqs else []
     if len(reps) != len(reqs):
         raise InfraError("driver returned %d replies for %d requests" % (len(reps), len(reqs)))
-    for j, (case, inp, a0, total0, target, r1, r2) in enumerate(infos):
+    for j, (case, inp, a0, total0, target, r1, r2, feed) in enumerate(infos):
         rd, rc, rrem, rdec = reps[4 * j:4 * j + 4]
         inp = dict(inp, target=target, activity_at_removal=total0)
         halves = sorted({R.fields(i)["Thalf_hrs"] for i, v in a0 if v > 0})
@@ -148,13 +155,28 @@ def check_cases(run: Run, R, cases, activation):
         m1 = parse(rd)
         if m1[0] != r1[0] or (m1[0] == "err" and m1[1] != r1[1]) or \
                 (m1[0] == "ok" and not same_time(m1[1], r1[1])):
-            run.disagree("decay_time", inp, m1, r1, what="Newton solve on the code's own activities")
+            if abs(total0 / target - 1) < 1e-14:
+                # target == activity at removal to the last bit: whether f(0) <= 0 holds then depends on
+                # how the sum is rounded (CPython >= 3.12 `sum()` is compensated, the model adds left to
+                # right; both are the same real number).  Either outcome satisfies the property (checked
+                # by the oracle below); not a disagreement about decay_time.
+                run.dist["knife-edge:target==A0"] = run.dist.get("knife-edge:target==A0", 0) + 1
+            else:
+                run.disagree("decay_time", inp, m1, r1, what="Newton solve on the code's own activities")
         # whole path, unless an ill-conditioned row makes the activities themselves noise
         if rc.startswith("ok"):
-            amps = [amp for _, amp, _ in AC.parse_tally(rrem, 1)]
+            mrem = AC.parse_tally(rrem, 1)
+            amps = [amp for _, amp, _ in mrem]
             # … or the target sits within rounding of the activity at removal (the early exit then
-            # hinges on the last bit of a sum; the bit-exact `decaydata` comparison covers that)
-            if all(a < 1e4 for a in amps) and abs(total0 / target - 1) > 1e-9:
+            # hinges on the last bit of a sum; the bit-exact `decaydata` comparison covers that),
+            # or the activities themselves differ from the model's (that is C14's business and is
+            # reported there; here it would only repeat the alarm under the wrong property)
+            same_act = [k for k, _, _ in mrem] == [k for k, _ in feed] and all(
+                close(v[0], x, rel=1e-9, abs_=1e-300) for (_, _, v), (_, x) in zip(mrem, feed))
+            if not same_act:
+                run.dist["whole-path-skipped:activities-differ"] = \
+                    run.dist.get("whole-path-skipped:activities-differ", 0) + 1
+            if same_act and all(a < 1e4 for a in amps) and abs(total0 / target - 1) > 1e-9:
                 m2 = parse(rdec)
                 if m2[0] != r1[0] or (m2[0] == "err" and m2[1] != r1[1]) or \
                         (m2[0] == "ok" and not close(m2[1], r1[1], rel=1e-7, abs_=1e-9)):
